@@ -120,10 +120,12 @@ CLAIMS = {
              "with rejected commands over long names (text of diagnostics).",
         design_ref="5 C23"),
     "C24": dict(
-        technique="Lean 4 proof (pool machine of the shared big-rational pool: a cell handed out is never in use, invariant kept by alloc and release) tied by concurrent runs under ThreadSanitizer compared with runs alone - partial",
+        technique="Lean 4 proof (pool machine of the shared big-rational pool: a cell handed out is never in use, invariant kept by alloc and release, in every interleaving of any number of threads no cell has two holders) tied by concurrent runs under ThreadSanitizer compared with runs alone - partial",
         text="PARTIAL: absence of data races and memory errors is searched for, not proved. Theorems: in the pool machine (what the "
              "mutex-protected mpqPool executes) alloc never returns a cell that is in use and alloc / release keep the invariant "
-             "that every cell is free or in use, never both. Tie: a harness linked against a ThreadSanitizer build solves 2-8 "
+             "that every cell is free or in use, never both; lifted to every schedule (any list of alloc / release steps of any "
+             "number of threads from the empty pool, a thread releasing only a cell it holds) the invariant holds, no cell is held "
+             "by two threads at once and the next cell handed out has no holder. Tie: a harness linked against a ThreadSanitizer build solves 2-8 "
              "random LRA/LIA instances with coefficients of 2^70 at the same time (one solver, logic and config per thread) and "
              "compares every answer with the answer of the same instance alone; any ThreadSanitizer report or differing answer "
              "is a violation.",
@@ -132,7 +134,9 @@ CLAIMS = {
         technique="Lean 4 proof (restart loop with a stop flag: the stopped run answers unknown or what the undisturbed run answers) tied by stop requests at random moments of real runs under ThreadSanitizer - partial",
         text="PARTIAL: absence of data races and crashes is searched for, not proved. Theorems: for every search behaviour, "
              "every moment at which the request becomes visible and every bound, the loop answers unknown or exactly the "
-             "answer of the run without the request; a request visible before the first round gives unknown. Tie: the harness "
+             "answer of the run without the request; a request visible before the first round gives unknown; a definitive answer of a stopped run is the undisturbed "
+             "answer; a request gives unknown when no earlier round decides; a later request disturbs no more than an earlier "
+             "one. Tie: the harness "
              "calls notifyStop / notifyGlobalStop from another thread after a random delay between zero and 1.5 times the "
              "solving time of the instance (measured on an undisturbed run) and requires unknown or the undisturbed answer, "
              "with no ThreadSanitizer report.",
